@@ -6,11 +6,11 @@ from tools import bounded
 
 UNIT = u = Unit('topo_bounded', ['C26'], 'bounded: all protocol-respecting histories up to a depth over 3 items against a reference model')
 u.expected = ['TopoSort']
-u.trusted += ['BOUNDED stand-in (not a proof): every history of at most 5 (quick) / 7 (thorough) operations insert / insert_dep / remove over 3 items that respects the usage protocol, compared after every step with a reference model written from the property statement (len, peek_all as a set, in_cycle)']
+u.trusted += ['BOUNDED stand-in (not a proof): every history of at most 5 (quick) / 6 (thorough) operations insert / insert_dep / insert_deps (two children) / remove over 3 items that respects the usage protocol, compared after every step with a reference model written from the property statement (len, peek_all as a set, in_cycle)']
 
 
 def runner(unit, prop, repo, scratch, tier):
-    return bounded.run_driver(unit, prop, repo, scratch, tier, 'topo_api', [5], [7], 'TopoSort',
+    return bounded.run_driver(unit, prop, repo, scratch, tier, 'topo_api', [5], [6], 'TopoSort',
                               'after every history of <= N operations over 3 items: peek_all offers exactly the pending items without a pending registered dependency, in_cycle iff non-empty and nothing ready, len = number of pending items')
 
 
